@@ -356,10 +356,10 @@ def run(prog: Program, _no_c10: bool = False) -> Results:
     return res
 
 
-def closer_scope_first(prog: Program, res: Results) -> None:
+def closer_scope_first(prog: Program, res: Results, rid: str = "R-C11-5") -> None:
     """R-C11-5: where the CLI follows `inherit name;` inside a call argument to the binding that defines `name`, the set that
     holds the call (the closer scope) is consulted before the enclosing let bindings."""
-    r = res.rule("R-C11-5", "the closer scope wins when an inherited name is followed to its definition: in _resolve_inherited_binding "
+    r = res.rule(rid, "the closer scope wins when an inherited name is followed to its definition: in _resolve_inherited_binding "
                  "the enclosing let bindings are consulted only after the lookup of the name in the set that holds the call found "
                  "nothing (and never ahead of it in one combined scan)", floor=1)
     f = prog.funcs.get("_resolve_inherited_binding")
@@ -388,6 +388,11 @@ def closer_scope_first(prog: Program, res: Results) -> None:
             for g in ast.walk(n.ast):
                 if isinstance(g, ast.comprehension):
                     out.append(g.iter)
+                # a combined candidate list handed to a search (`[*outer, *set.values]`, `outer + set.values`)
+                elif isinstance(g, (ast.List, ast.Tuple)) and any(isinstance(x, ast.Starred) for x in g.elts):
+                    out.append(g)
+                elif isinstance(g, ast.BinOp) and isinstance(g.op, ast.Add) and mentions(g, outer):
+                    out.append(g)
         return out
 
     def parts(e):
@@ -428,6 +433,6 @@ def closer_scope_first(prog: Program, res: Results) -> None:
                    if s_calls else f"the name is never looked up in `{sp}` itself before `{outer}` is scanned")
         r.ob(ok, {"site": f.key, "outer_scan": norm(e)[:60], "after_miss_in": sorted(s_vars)})
         if not ok:
-            res.add("R-C11-5", (f.key, "enclosing let bindings consulted before the holding set"), f.loc(n.ast),
+            res.add(rid, (f.key, "enclosing let bindings consulted before the holding set"), f.loc(n.ast),
                     f"{f.key}: {why}: when the name is bound both in the set that holds the call (e.g. a `rec` set) and in an enclosing "
                     f"`let`, the shadowed outer binding is rewritten and the one the call really sees keeps its value")
